@@ -310,6 +310,12 @@ def clone_value(st, v):
         return v
     if _is_plain(v):
         return copy_val(v)
+    if isinstance(v, (Struct, Enum)):
+        nm = adt_name(v)
+        h = st.ex.extra_models.get(f'<{nm} as Clone>::clone') if nm else None
+        if h is not None:
+            import types as _t
+            return h(_t.SimpleNamespace(st=st, args=[new_cell_ptr(v)]))
     if isinstance(v, (Struct, Enum)) and v.lazy is not None:
         # lazily created plain data: a copy that shares not-yet-created fields would alias;
         # clone what exists and keep laziness under a distinct path is unsound -> materialise no further
